@@ -36,7 +36,9 @@ CHECKS = {
         "exploration",
         "All trees with <=4 (thorough <=5) nodes x tag schemes x data x end-tag/CDATA choices x gaps enumerated exhaustively, larger "
         "trees (up to 40 leaves) sampled with Hypothesis over the full rendering-choice space; the oracle is the generated abstract tree "
-        "itself (tags, nesting, order, trimmed still-escaped data, no attributes/tails); adjacent-token-pair coverage reported.",
+        "itself (tags, nesting, order, trimmed still-escaped data, no attributes/tails); adjacent-token-pair coverage reported; sampled renderings "
+        "also go through OFXTree.parse as complete v1 / v2 files and after a failed parse; an atheris campaign (seeded and empty corpus) "
+        "asserts the scanner's tree for every mutated body the strict scanner finds well-formed.",
         "the generator's renderer is cross-checked against an independent strict scanner on every case (harness self-test)",
         "property-based testing: exhaustive small-tree enumeration + Hypothesis sampling; oracle = generated tree (inverse / metamorphic over renderings)",
     ),
@@ -45,7 +47,8 @@ CHECKS = {
         "Every fault operator (truncation at every token boundary / byte, end-tag deletion, renaming, duplication, transposition, stray "
         "end tag at every boundary, text after end tag, second root) applied at every position of every small well-formed body "
         "(<=4 nodes, enumerated) and of Hypothesis-sampled larger bodies and real request/response bodies; a mutant is asserted only "
-        "when an independent strict scanner classifies it MUST_REJECT.",
+        "when an independent strict scanner classifies it MUST_REJECT; mutants are also delivered as complete files under v1 and v2 headers, "
+        "and an atheris campaign asserts rejection of every MUST_REJECT body it reaches.",
         "trusts the strict scanner (self-tested against the renderer on every C02 case); ambiguous dataless-start-tag mutants are not asserted",
         "property-based testing / fault injection: enumerated mutation operators over generated documents with a three-valued reference classifier as oracle",
     ),
@@ -93,7 +96,8 @@ CHECKS = {
         "exploration",
         "Generated valid documents of every class contaminated with 1-5 foreign nodes (unknown leaf / empty element / aggregate with "
         "known sub-trees, vendor-prefixed leaf / aggregate, other classes' tags) at arbitrary positions of arbitrary aggregates, "
-        "delivered as element tree and as XML and SGML text; metamorphic oracle: equal to the conversion of the uncontaminated document, input tree untouched.",
+        "delivered as element tree and as XML and SGML text; foreign aggregates up to 24 levels deep, named like the root (OFX), inside "
+        "lists of hundreds of members; metamorphic oracle: equal to the conversion of the uncontaminated document, input tree untouched.",
         "unknown = not an attribute name or OFX tag of the enclosing class; warnings are not an oracle",
         "property-based testing: Hypothesis structured generation + metamorphic relation (insertions do not change the result)",
     ),
@@ -127,7 +131,9 @@ CHECKS = {
         "Workloads over generated inputs of all classes (wire round trips in all forms, harness-built and contaminated trees, held "
         "instances, type conversions incl. DateTime strings, failing constructions and mis-nested bodies): deep before/after snapshots "
         "of bytes, element trees and models; results before / after / after-permuted histories and on repetition compared by "
-        "canonical dump; 2-16 concurrent threads must reproduce the sequential baseline.",
+        "canonical dump; 2-16 concurrent threads must reproduce the sequential baseline (also as first users of a class in a fresh "
+        "interpreter, and all converting deep documents at once); probes are compared with a fresh interpreter; every failing "
+        "obligation of C04 three times in a row; convert() twice on one OFXTree with an in-place edit in between.",
         "thread interleavings are the interpreter's (10us switch interval), so the thread part can only refute",
         "property-based testing: Hypothesis-generated operation histories with snapshot (purity) and history-independence invariants; concurrent differential against sequential baseline",
     ),
@@ -145,17 +151,19 @@ CHECKS = {
         "Hypothesis rule-based state machine over 1-3 clients and a scripted in-process server (urllib handlers replaced, cookie and error "
         "processors real, socket guard): after every call the recorded traffic is compared with a reference model - no traffic on dry "
         "runs, one POST per expected hop to the expected URL with the right headers, body equal to the dry-run serialisation as a parsed "
-        "story, anonymous profile hops, credentials only to the advertised / configured URL, Cookie header equal to a per-client reference jar.",
+        "story, anonymous profile hops, credentials only to the advertised / configured URL, Cookie header equal to a per-client reference jar; "
+        "URLs with percent-escapes, per-call profile URLs, redirecting servers; separate ofxget runs against a server setting persistent cookies.",
         "urllib transport only; host-only cookies with Path=/; when the service URL comes from a profile cached by a path the model did not follow the service hop is not predicted",
         "property-based testing: Hypothesis stateful (rule-based machine) with a reference model of expected traffic and cookie jars as invariant",
     ),
     "C15": (
         "fault_enumeration",
-        "Histories: Hypothesis rule-based machine over four servers (two pairs sharing ORG/FID) with a reference model (newest delivered "
+        "Histories: Hypothesis rule-based machine over seven servers (sharing ORG/FID, host, differing by path / port / query) with a reference model (newest delivered "
         "profile bytes per server); crash points: every Python file-I/O event of a cache-writing request turned into a hard crash "
         "(os._exit in a forked child; unflushed / flushed / half-written variants) followed by a restart against a well-behaved server; "
         "schedules: all interleavings of two concurrent profile requests gated at cache read / server reply / open / write / close / "
-        "replace.  Invariants: returned bytes, DTPROFUP asked, cache contents whole and newest, no cross-server use.",
+        "replace; ofxget's scan (concurrent requests through one client) and real restarts (fresh interpreter per run, unpinned hash seed).  "
+        "Invariants: returned bytes, DTPROFUP asked, request URL, cache contents whole and newest, no cross-server use.",
         "crash granularity is the Python I/O call; kernel write reordering is not modelled; for concurrent writers only wholeness and usability are asserted",
         "property-based testing / fault injection: Hypothesis stateful machine with reference model + exhaustive crash-point and two-thread schedule enumeration under harness-owned I/O interception",
     ),
